@@ -48,3 +48,21 @@ def self_cov_err(P, Pref, q, d, h, floor=1e-12):
     v = onp.maximum(v, floor * vmax / (sc * sc))
     den = onp.sqrt(onp.outer(v, v)) + 1e-300
     return float(onp.max(onp.abs(onp.asarray(P) - Pref) / den))
+
+
+def corr_cond(P):
+    """Condition number of the correlation matrix of P (inf if a variance vanishes): square-root filters lose
+    about eps * sqrt(cond) of relative accuracy per update, whatever the coordinates."""
+    P = onp.asarray(P, dtype=float)
+    v = onp.diag(P)
+    if P.size == 0 or onp.any(v <= 0) or not onp.all(onp.isfinite(P)):
+        return float("inf")
+    sd = onp.sqrt(v)
+    try:
+        return float(onp.linalg.cond(P / onp.outer(sd, sd)))
+    except onp.linalg.LinAlgError:
+        return float("inf")
+
+
+def cond_tol(base, kP, factor=1e3):
+    return max(base, factor * EPS * math.sqrt(min(kP, 1e32)))
